@@ -18,6 +18,26 @@ INF = float("inf")
 SPEED = timing.SPEED
 UNKNOWN_DURATION = {"acquire", "acquire_timeout", "lock", "cv_wait", "cv_wait_for", "barrier", "get", "put", "mq_get", "mq_put", "io", "unlock"}
 
+EXC_WAKES = "exception-wakes-suspended-actor"
+
+
+def exception_wakes_suspended_actor(log):
+    """True when an actor that is suspended (suspend request logged, no resume since) logs the return of an operation with an exception:
+    ActorImpl::throw_exception() resumes a suspended actor, and the failing activity answers its simcall too (known/C11.json)."""
+    susp = set()
+    for l in log.lines:
+        k = l.get("k")
+        if k == "req" and l["op"][0] == "suspend":
+            susp.add(l["op"][1])
+        elif k == "req" and l["op"][0] == "resume":
+            susp.discard(l["op"][1])
+        elif k == "actor_end":
+            susp.discard(l["a"])
+        elif k == "ret" and "exc" in l and l["a"] in susp:
+            return True
+    return False
+
+
 Q = st.integers(1, 8).map(lambda k: k / 4)                      # coinciding dates are frequent by construction
 FINE = st.one_of(Q, Q, Q, st.integers(1, 2048).map(lambda k: k / 1024))
 
@@ -472,7 +492,15 @@ def check_c11(case, log, oc, labels):
         who = inst.label()
         if inst.t_end is None:
             if log.done:
-                oc.bad("actor-never-terminates", "%s (created at %r) has no termination record" % (who, inst.t_new))
+                # known defect (known/C11.json): an actor created in the scheduling round in which a kill_all / the shutdown of its host
+                # is served (the creation request first) is killed before its first slice; it then runs its body up to its first simcall,
+                # which is never served: a zombie without termination nor on_exit, and a spurious deadlock report at the end
+                pending = [q for j in insts for q in j.ops
+                           if q["t_req"] == inst.t_new and q["n_req"] < inst.n_new and (q["n_ret"] is None or q["n_ret"] > inst.n_new)
+                           and (q["op"][0] == "kill_all" or (q["op"][0] == "turn_off" and q["op"][1] == "host" and q["op"][2] == inst.host))]
+                sig = "actor-never-terminates:created-in-the-round-it-is-killed" if pending and inst.k == 0 else "actor-never-terminates"
+                oc.bad(sig, "%s (created at %r) has no termination record%s" % (who, inst.t_new,
+                       "; created while %s was being served" % pending[0]["op"] if pending else ""))
             continue
         dates = [d for d, _, _ in inst.triggers]
         certain = [d for d, c, _ in inst.triggers if c]
